@@ -25,6 +25,7 @@ type simcfg struct {
 	cache    int
 	faults   bool
 	dagrun   bool
+	badgerCache int
 	ff       bool
 	live     int
 	witness  bool
@@ -51,6 +52,8 @@ type hist struct {
 	nextNodeID       int
 	weights          []float64
 	witnessBatch     int
+	tmpDirs          []string
+	badger           *hg.BadgerStore
 	ffAnchorRR       []int
 }
 
@@ -76,6 +79,9 @@ func (h *hist) pull(a, b *hx.Node, limit int, lose bool) {
 	err = a.Core.Sync(b.Core.ValidatorID(), wire)
 	if err != nil {
 		h.actions["sync-error"]++
+		if os.Getenv("VERIF_SYNCDEBUG") != "" {
+			fmt.Fprintf(os.Stderr, "SYNCERR node=%d from=%d: %v\n", a.ID, b.ID, err)
+		}
 	}
 	ran := false
 	if err == nil || hg.IsNormalSelfParentError(err) {
@@ -96,7 +102,11 @@ func (h *hist) after(a *hx.Node, sigPoolRan bool) {
 	}
 	a.AfterAction(sigPoolRan)
 	h.oracles(a, before)
-	h.conservation(a)
+	if !(h.badger != nil && a.ID == 0) {
+		// (on the small-cache persistent node a consensus pass can fail below the supported cache window,
+		// after which the core is wedged; that configuration is outside C05's quantifier)
+		h.conservation(a)
+	}
 	if h.cfg.dyn {
 		h.peerSetOracle(a)
 		h.resetPeerSetOracle(a)
@@ -295,6 +305,16 @@ func runHistory(out *bufio.Writer, seed int64, hid int, cfg simcfg) (stats map[s
 	h.nextNodeID = cfg.n
 	for i := 0; i < cfg.n; i++ {
 		var store hg.Store = hg.NewInmemStore(cfg.cache)
+		if cfg.badgerCache > 0 && i == 0 {
+			// node 0 on a persistent store with a small cache: old blocks and events live only on disk
+			dir, _ := os.MkdirTemp("", "verif-sim-badger")
+			h.tmpDirs = append(h.tmpDirs, dir)
+			bs, err := hg.NewBadgerStore(cfg.badgerCache, dir, false, hx.QuietLogger())
+			if err == nil {
+				store = bs
+				h.badger = bs
+			}
+		}
 		if cfg.faults {
 			fs := &hx.FaultStore{Store: store}
 			h.faults[i] = fs
@@ -303,6 +323,18 @@ func runHistory(out *bufio.Writer, seed int64, hid int, cfg simcfg) (stats map[s
 		nd := w.NewNode(i, i, genesis, genesis, store)
 		h.nodes = append(h.nodes, nd)
 	}
+	if h.badger != nil {
+		h.nodes[0].Faulty = true
+		fmt.Fprintf(out, "F 0\n")
+	}
+	defer func() {
+		if h.badger != nil {
+			h.badger.Close()
+		}
+		for _, d := range h.tmpDirs {
+			os.RemoveAll(d)
+		}
+	}()
 	// some nodes create their first event on their own (monologue), others on their first sync
 	for _, nd := range h.nodes {
 		if cfg.n == 1 || rng.Intn(2) == 0 {
@@ -466,6 +498,7 @@ func main() {
 	faults := flag.Bool("faults", false, "inject store failures on new-event writes")
 	dagrun := flag.Bool("dagrun", false, "C03: re-feed the global DAG under orders / cuts / stores / batchings")
 	thorough := flag.Bool("thorough", false, "more variants")
+	badgerCache := flag.Int("badgercache", 0, "node 0 uses a BadgerStore with this (small) cache size and is not compared with the model")
 	ff := flag.Bool("ff", false, "C13: half of the joiners start by fast-forwarding from a peer's anchor instead of replaying history")
 	live := flag.Int("live", 0, "C06: after the adversarial prefix run fair all-pairs cycles until quiescence, at most this many")
 	witness := flag.Bool("c03witness", false, "search a minimal batching witness")
@@ -478,7 +511,7 @@ func main() {
 		if i%7 != 0 && n < 3 && *maxn >= 3 {
 			n = 3 + master.Intn(*maxn-2)
 		}
-		cfg := simcfg{n: n, steps: *steps/2 + master.Intn(*steps), dyn: *dyn, fairTail: *tail, cache: *cache, faults: *faults, dagrun: *dagrun, thorough: *thorough, ff: *ff, live: *live, witness: *witness}
+		cfg := simcfg{n: n, steps: *steps/2 + master.Intn(*steps), dyn: *dyn, fairTail: *tail, cache: *cache, faults: *faults, dagrun: *dagrun, thorough: *thorough, badgerCache: *badgerCache, ff: *ff, live: *live, witness: *witness}
 		runHistory(out, master.Int63(), i, cfg)
 	}
 }
